@@ -18,12 +18,14 @@ NEEDS_NUMBA = False
 CASE_TIMEOUT = 1800
 RULE = ("generated datasets: daily meter (local midnight, or another fixed hour) + hourly or half-hourly temperature feed given in the meter's zone, in "
         "UTC or in another zone (whole multiples of the sampling interval), spans containing DST days, NaN patterns {none, isolated, runs, whole "
-        "days, exactly half of a day, just over / under half}; daily and billing classes; frame and from_series entry points.  "
+        "days, exactly half of a day, just over / under half}; daily and billing classes; frame and from_series entry points; temperature-only reporting data (from_series without a meter, the "
+        "site's zone requested with tzinfo, the feed delivered in UTC under each of its names / local standard time / a neighbouring zone).  "
         "distinct_nontrivial = distinct (class, entry, meter zone, feed zone, interval, meter hour, NaN pattern) datasets with at least one incomplete day.")
 ASSUMPTIONS = ["the final meter day (open-ended last interval) is excluded", "means are compared with 1e-9 relative tolerance (sum re-association)",
                "'readings of a day' are the feed timestamps inside the meter day; a DST day has 23 or 25 hourly readings"]
 REQUIRED_REACH = {"dataset.judged": 40, "day.mean_compared": 4000, "day.expected_missing": 100, "day.exactly_half": 20, "counts.days_compared": 1500,
-                  "feed.half_hourly": 8, "day.dst": 8, "day.dst_around_half": 4, "hook.check_data_sufficiency": 40, "meter.zero_reads": 10, "meter.days_without_usage": 20, "feed.starts_at_another_hour_than_the_meter_reads": 8}
+                  "feed.half_hourly": 8, "day.dst": 8, "day.dst_around_half": 4, "hook.check_data_sufficiency": 40, "meter.zero_reads": 10, "meter.days_without_usage": 20, "feed.starts_at_another_hour_than_the_meter_reads": 8,
+                  "entry.temperature_only_from_series": 16, "entry.temperature_only_feed_in_another_zone_than_requested": 10}
 
 VIOL = []
 SUFF = []
@@ -116,6 +118,8 @@ def nan_pattern(rng, tvals, day_of, pattern, per_day):
 
 def run_case(spec):
     import opendsm.eemeter as em
+    if spec.get("entry") == "series-no-meter":
+        return run_nometer_case(spec)
     rng = rng_for(spec["seed"], ID, spec["n"])
     del VIOL[:]
     del SUFF[:]
@@ -271,6 +275,132 @@ def run_case(spec):
                 "interval": "%dmin" % minutes}, events=1)
 
 
+STD_OFFSET_ZONE = {"America/Chicago": "Etc/GMT+6", "America/New_York": "Etc/GMT+5", "America/Los_Angeles": "Etc/GMT+8", "Europe/London": "Etc/GMT",
+                   "Europe/Berlin": "Etc/GMT-1", "Australia/Sydney": "Etc/GMT-10", "Pacific/Auckland": "Etc/GMT-12", "Asia/Tokyo": "Etc/GMT-9", "UTC": "Etc/UTC"}
+
+
+def run_nometer_case(spec):
+    """Temperature-only reporting data: from_series(None, feed, tzinfo=<the site's zone>).  The meter days are the local calendar days of the
+    requested zone (of the feed's own zone when none is requested), whatever zone the feed is delivered in (UTC under any of its names, local
+    standard time all year, a neighbouring zone)."""
+    import zoneinfo
+    import opendsm.eemeter as em
+    rng = rng_for(spec["seed"], ID, 5000 + spec["n"])
+    del VIOL[:]
+    del SUFF[:]
+    keys = set()
+    tz, ftz, minutes = spec["tz"], spec["feed_tz"], spec["minutes"]
+    site = tz or ftz
+    t0 = pd.Timestamp(spec["start"], tz="UTC") + pd.Timedelta(hours=int(spec.get("start_hour_utc", 0)))
+    fidx = pd.date_range(t0, t0 + pd.Timedelta(days=spec["days"]), freq="%dmin" % minutes, inclusive="left").tz_convert(ftz)
+    loc = fidx.tz_convert(site)
+    hod = loc.hour.values + loc.minute.values / 60
+    tv = np.round(55 + 10 * np.sin(2 * np.pi * (hod - 15) / 24) + rng.normal(0, 3, len(fidx)) + np.linspace(-15, 15, len(fidx)), 2)
+    # local calendar days of the site (independent of pandas' normalize: zoneinfo wall-clock dates)
+    dates = np.array([d.toordinal() for d in loc.date])
+    tv = nan_pattern(rng, tv, dates, spec["pattern"], 24 * 60 // minutes)
+    temp = pd.Series(tv, index=fidx, name="temp")
+    cls = {"daily-reporting": em.DailyReportingData, "billing-reporting": em.BillingReportingData}[spec["cls"]]
+    tag = {k: spec[k] for k in ("cls", "entry", "tz", "feed_tz", "minutes", "pattern", "start", "days")}
+    kw = {"tzinfo": zoneinfo.ZoneInfo(tz)} if tz else {}
+    try:
+        data = cls.from_series(None, temp if spec["n"] % 2 else temp.to_frame("temperature"), is_electricity_data=True, **kw)
+    except Exception as e:
+        import traceback
+        tb = traceback.extract_tb(e.__traceback__)
+        add("constructor-raised:%s:%s:%s" % (spec["cls"], type(e).__name__, tb[-1].name), "%s (temperature-only from_series) raised %s: %s" % (spec["cls"], type(e).__name__, str(e)[:160]), **tag)
+        return dict(viol=[dict(v) for v in VIOL], reach=I.take_reach(), keys=[], hist={"cls": spec["cls"]}, events=1)
+    I.reach("dataset.judged")
+    I.reach("entry.temperature_only_from_series")
+    if ftz != site:
+        I.reach("entry.temperature_only_feed_in_another_zone_than_requested")
+    out = data.df
+    if str(out.index.tz) != site:
+        add("temperature-only-data-not-in-the-requested-zone:%s" % spec["cls"].split("-")[0],
+            "requested zone %s, feed zone %s, data object zone %s" % (site, ftz, out.index.tz), **tag)
+    per_day = 24 * 60 // minutes
+    got = {}
+    for ts, v in zip(out.index, out["temperature"].values):
+        got[ts.tz_convert(site).date().toordinal()] = (ts, float(v))
+    suff = SUFF[-1] if SUFF and {"temperature_null", "temperature_not_null"} <= set(SUFF[-1].columns) else None
+    sgot = {}
+    if suff is not None:
+        for ts, a, b in zip(suff.index, suff["temperature_not_null"].values, suff["temperature_null"].values):
+            sgot[ts.tz_convert(site).date().toordinal()] = (a, b)
+    udays = np.unique(dates)
+    incomplete = False
+    bad_mean, bad_missing, bad_counts, not_midnight = [], [], [], []
+    fin = np.flatnonzero(np.isfinite(tv))
+    d_first, d_last = (dates[fin[0]], dates[fin[-1]]) if len(fin) else (udays[-1], udays[0])
+    for d in udays[1:-1]:                               # whole local days only: the first and the last local day of the feed may be partial
+        if d <= d_first or d >= d_last:                 # ... and the feed begins / ends with its first / last actual reading (leading and trailing
+            continue                                    # missing readings are trimmed by from_series): that day is a partial day too
+        sel = dates == d
+        v = tv[sel]
+        n_tot, n_ok = int(sel.sum()), int(np.isfinite(v).sum())
+        if d not in got:
+            bad_mean.append((d, None, None, n_ok, n_tot))
+            continue
+        ts, g = got[d]
+        if (ts.tz_convert(site).hour, ts.tz_convert(site).minute) != (0, 0):
+            not_midnight.append(ts)
+        I.reach("day.mean_compared")
+        if n_tot != per_day:
+            I.reach("day.dst")
+        if n_ok < n_tot:
+            incomplete = True
+        if n_ok * 2 == n_tot:
+            I.reach("day.exactly_half")
+        if n_ok * 2 <= n_tot:
+            I.reach("day.expected_missing")
+            if not np.isnan(g):
+                bad_missing.append((d, g, n_ok, n_tot))
+        else:
+            mean = float(np.sum(v[np.isfinite(v)])) / n_ok
+            if np.isnan(g) or abs(g - mean) > 1e-9 * max(1.0, abs(mean)):
+                bad_mean.append((d, g, mean, n_ok, n_tot))
+        if d in sgot:
+            I.reach("counts.days_compared")
+            a, b = sgot[d]
+            if not (a == n_ok and b == n_tot - n_ok):
+                bad_counts.append((d, a, b, n_ok, n_tot - n_ok))
+    import datetime as _dt
+    fmt = lambda d: _dt.date.fromordinal(int(d)).isoformat()
+    cname = spec["cls"].split("-")[0]
+    if not_midnight:
+        add("temperature-only-days-do-not-start-at-local-midnight:%s" % cname, "%d rows; e.g. %s (requested zone %s, feed zone %s)" % (len(not_midnight), not_midnight[0], site, ftz), **tag)
+    if bad_mean:
+        d, g, mean, n_ok, n_tot = bad_mean[0]
+        why = ""
+        if minutes != 60 and all(np.isnan(b[1]) if b[1] is not None else False for b in bad_mean) is False and all(b[0] >= udays[-3] for b in bad_mean):
+            why = ":last-day-of-the-data"
+        mech = "daily-temperature-is-not-the-mean-of-the-days-readings:%s:%dmin:temperature-only%s" % (cname, minutes, why)
+        if cname == "billing" and minutes == 60 and all(b[1] is not None and b[4] != 24 and b[3] * 2 > b[4] and b[3] <= 12 and np.isnan(b[1]) for b in bad_mean):
+            # the recorded billing-class defect (same code path, same mechanism): a 23-hour day judged against half of 24 readings
+            mech = "daily-temperature-is-not-the-mean-of-the-days-readings:billing:60min:incomplete-day:short-dst-day-judged-against-half-of-24-readings"
+        add(mech,
+            "%d local days differ; e.g. %s: data.df temperature %r, mean of its %d/%d present readings %r (requested zone %s, feed zone %s)" % (len(bad_mean), fmt(d), g, n_ok, n_tot, mean, site, ftz),
+            n_days=len(bad_mean), **tag)
+    if bad_missing:
+        d, g, n_ok, n_tot = bad_missing[0]
+        add("day-with-half-or-fewer-readings-not-missing:%s:%dmin:temperature-only" % (cname, minutes),
+            "%d days; e.g. local day %s has %d of %d readings but temperature %r" % (len(bad_missing), fmt(d), n_ok, n_tot, g), n_days=len(bad_missing), **tag)
+    if bad_counts:
+        d, a, b, e1, e2 = bad_counts[0]
+        if all(np.isnan(x[1]) and np.isnan(x[2]) and x[3] == 0 for x in bad_counts):
+            why = ":fully-missing-day-has-nan-counts"
+        elif minutes != 60 and all((x[1], x[2]) in ((1, 0), (0, 1)) for x in bad_counts):
+            why = ":one-flag-per-day-instead-of-reading-counts"
+        else:
+            why = ""
+        add("sufficiency-counts-not-exact:%s:%dmin%s" % (cname, minutes, why),
+            "%d days; e.g. local day %s: handed (present %r, absent %r), true (%d, %d)" % (len(bad_counts), fmt(d), a, b, e1, e2), n_days=len(bad_counts), **tag)
+    if incomplete:
+        keys.add("|".join(str(spec[k]) for k in ("cls", "entry", "tz", "feed_tz", "minutes", "pattern")))
+    return dict(viol=[dict(v) for v in VIOL], reach=I.take_reach(), keys=sorted(keys), hist={"cls": spec["cls"] + "/temperature-only", "pattern": spec["pattern"],
+                "interval": "%dmin" % minutes}, events=1)
+
+
 def gen_cases(tier, seed):
     rng = np.random.default_rng([seed, 9])
     q = tier == "quick"
@@ -298,4 +428,16 @@ def gen_cases(tier, seed):
             cases[-1]["zero_reads"] = 1 + i % 5
         if i % 4 == 3 and not cls.startswith("billing"):
             cases[-1]["usage_nan_run"] = 2 + i % 6
+    # temperature-only reporting data: the site's zone is requested with tzinfo, the feed arrives in any zone (UTC under each of its names,
+    # local standard time all year, a neighbouring zone, the site's own zone; or no zone requested at all)
+    sites = ["America/Chicago", "Europe/Berlin", "Australia/Sydney", "America/New_York", "Europe/London", "America/Los_Angeles"]
+    m = 24 if q else 240
+    for j in range(m):
+        site = sites[j % len(sites)]
+        feeds = ["UTC", "Etc/UTC", STD_OFFSET_ZONE[site], "GMT", sites[(j + 1 + j // len(sites)) % len(sites)], site, "Zulu"]
+        ftz = feeds[(j + j // 7) % len(feeds)]
+        cases.append(dict(kind="dataset", cls="daily-reporting" if j % 4 else "billing-reporting", entry="series-no-meter", tz=site if j % 9 != 8 else None, feed_tz=ftz,
+                          minutes=60 if j % 3 else 30, meter_hour=0, pattern=pats[(j + j // len(pats)) % len(pats)],
+                          start=["2019-03-01", "2019-06-10", "2019-10-15", "2020-03-20", "2020-07-01", "2019-09-25"][(j + j // 6) % 6], start_hour_utc=[0, 5, 13, 22][j % 4],
+                          days=int(rng.choice([40, 60, 75])), n=1000 + j))
     return cases
